@@ -19,6 +19,7 @@
 -/
 import Tranp.Str
 import Tranp.Generated.EvalOps
+import Tranp.Generated.UnicodeDigits
 
 namespace Tranp.Evaluator
 open Tranp Tranp.Generated.EvalOps
@@ -158,10 +159,20 @@ def wsCodes : List Nat :=
 
 def isWs (c : Char) : Bool := wsCodes.contains c.toNat
 
+/-- decimal value of a code point of category Nd (generated table of the zeros of the 0..9 blocks) -/
+def uniDec (n : Nat) : Option Nat :=
+  match Generated.UnicodeDigits.decimalZeros.find? (fun z => z ≤ n && n < z + 10) with
+  | some z => some (n - z)
+  | none => none
+
+/-- digit value as `int(str, base)` reads it: ASCII digits and (base 16) hex letters, and every Unicode decimal digit. -/
 def digVal (base : Nat) (c : Char) : Option Nat :=
   match Str.hexVal c with
   | some d => if d < base then some d else none
-  | none => none
+  | none =>
+    match uniDec c.toNat with
+    | some d => if d < base then some d else none
+    | none => none
 
 /-- digits after a digit: single underscores between digits are skipped (PEP 515); trailing blanks are accepted. -/
 def goDigits (base : Nat) (acc : Nat) : Str → Option Nat
@@ -196,7 +207,7 @@ def dropHexPrefix : Str → Str
   | r => r
 
 /-- `int(s, base)` for `base` 10 and 16 on ASCII input: blanks stripped, optional sign, digits with single underscores.
-    (Non-ASCII DIGITS are outside the model and never generated.) -/
+    Digits are the Unicode decimal digits (category Nd), as CPython's `int()` takes them. -/
 def pyInt (base : Nat) (s : Str) : Except PyExc Int :=
   let (neg, body) := signed (s.dropWhile isWs)
   let body := if base = 16 then dropHexPrefix body else body
@@ -209,7 +220,7 @@ def noWs (tok : Str) : Bool := tok.all (fun c => !isWs c)
 
 /-- shape of an integer literal token: `0[xX](_?hex)+` | `[1-9](_?digit)*` | `0(_?0)*`; the result is the base. -/
 def intLitBase (tok : Str) : Option Nat :=
-  if !noWs tok then none
+  if !noWs tok || !tok.all (fun c => c.toNat < 128) then none   -- a literal token is ASCII
   else if Str.startsWith tok ['0', 'x'] || Str.startsWith tok ['0', 'X'] then
     (if (parseDigits 16 (dropHexPrefix tok)).isSome && 2 < tok.length then some 16 else none)
   else if Str.startsWith tok ['0'] then
@@ -312,9 +323,10 @@ def cat (l r : Str) : Str :=
 /-! ## escape sequences of string-literal bodies: `_cat` joins token TEXTS, `_joins_escape` (evaluator.py:150-161, since 05486b1)
        refuses the joins that would change what the texts decode to -/
 
-/-- decoder state: plain text, after a backslash, inside `\ooo` (value, digits so far), after `\x`, after `\xh`. -/
+/-- decoder state: plain text, after a backslash, inside `\ooo` (value, digits so far), inside a hexadecimal escape `\xhh`,
+    `\uhhhh`, `\Uhhhhhhhh` (introducing letter, digits still to come (≥ 1), digits read so far, their value). -/
 inductive DecState where
-  | normal | backslash | oct (v n : Nat) | hex0 | hex1 (c0 : Char) (v : Nat)
+  | normal | backslash | oct (v n : Nat) | hex (k : Char) (need : Nat) (seen : Str) (v : Nat)
 deriving DecidableEq, Repr
 
 def octVal (c : Char) : Option Nat := if 48 ≤ c.toNat ∧ c.toNat ≤ 55 then some (c.toNat - 48) else none
@@ -330,39 +342,44 @@ def simpleEsc (c : Char) : Option Char :=
 /-- a character in plain text -/
 def stepNormal (c : Char) : Str × DecState := if c = '\\' then ([], .backslash) else ([c], .normal)
 
-/-- one character of the body: what is emitted, and the next state. `\ooo` takes 1–3 octal digits, `\xhh` exactly two hex
-    digits, an unknown escape keeps its backslash (CPython does, with a warning); `\u`, `\U`, `\N{…}` and a malformed `\x`
-    are outside the model (never generated). -/
+/-- number of hexadecimal digits after the introducing letter: `\xhh`, `\uhhhh`, `\Uhhhhhhhh` -/
+def hexWidth (c : Char) : Option Nat :=
+  if c = 'x' then some 2 else if c = 'u' then some 4 else if c = 'U' then some 8 else none
+
+/-- a code point a Python `str` AND a Lean `Char` can hold (lone surrogates, which `\ud800` yields in CPython, have no `Char`;
+    above U+10FFFF CPython rejects the literal) -/
+def validScalar (n : Nat) : Bool := n < 0xD800 || (0xDFFF < n && n < 0x110000)
+
+/-- one character of the body: what is emitted, and the next state. `\ooo` takes 1–3 octal digits, `\xhh` / `\uhhhh` /
+    `\Uhhhhhhhh` exactly two / four / eight hex digits, an unknown escape keeps its backslash (CPython does, with a warning);
+    `\N{…}` and a malformed hexadecimal escape are outside the model (`escOk`; never generated: CPython rejects the latter). -/
 def stepSt : DecState → Char → Str × DecState
   | .normal, c => stepNormal c
   | .backslash, c =>
     match octVal c with
     | some d => ([], .oct d 1)
     | none =>
-      if c = 'x' then ([], .hex0)
-      else match simpleEsc c with
+      match hexWidth c with
+      | some w => ([], .hex c w [] 0)
+      | none =>
+        match simpleEsc c with
         | some e => ([e], .normal)
         | none => (['\\', c], .normal)
   | .oct v n, c =>
     match octVal c with
     | some d => if n < 2 then ([], .oct (v * 8 + d) (n + 1)) else ([Char.ofNat (v * 8 + d)], .normal)
     | none => (Char.ofNat v :: (stepNormal c).1, (stepNormal c).2)
-  | .hex0, c =>
+  | .hex k need seen v, c =>
     match Str.hexVal c with
-    | some d => ([], .hex1 c d)
-    | none => ('\\' :: 'x' :: (stepNormal c).1, (stepNormal c).2)
-  | .hex1 c0 v, c =>
-    match Str.hexVal c with
-    | some d => ([Char.ofNat (v * 16 + d)], .normal)
-    | none => ('\\' :: 'x' :: c0 :: (stepNormal c).1, (stepNormal c).2)
+    | some d => if need ≤ 1 then ([Char.ofNat (v * 16 + d)], .normal) else ([], .hex k (need - 1) (seen ++ [c]) (v * 16 + d))
+    | none => ('\\' :: k :: (seen ++ (stepNormal c).1), (stepNormal c).2)
 
 /-- what is still pending at the end of the body -/
 def flushSt : DecState → Str
   | .normal => []
   | .backslash => ['\\']
   | .oct v _ => [Char.ofNat v]
-  | .hex0 => ['\\', 'x']
-  | .hex1 c0 _ => ['\\', 'x', c0]
+  | .hex k _ seen _ => '\\' :: k :: seen
 
 def decodeGo (st : DecState) : Str → Str
   | [] => flushSt st
@@ -384,15 +401,14 @@ def joinsEscape (l r : Str) : Bool :=
   | .oct _ _ => (match r with | c :: _ => (octVal c).isSome | [] => false)
   | _ => true
 
-/-- the body uses only escape sequences the decoder models (`\u`, `\U`, `\N{…}`, a line continuation and a malformed `\x` are
-    not) and does not end inside `\`, `\x`, `\xh`. -/
+/-- the body uses only escape sequences the decoder models (`\N{…}`, a line continuation, a malformed hexadecimal escape and a
+    `\u` / `\U` escape of a surrogate or beyond U+10FFFF are not) and does not end inside `\` or a hexadecimal escape. -/
 def escOkGo : DecState → Str → Bool
   | st, [] => (match st with | .normal => true | .oct _ _ => true | _ => false)
   | st, c :: cs =>
     (match st with
-     | .backslash => !(c = 'u' || c = 'U' || c = 'N' || c = '\n')
-     | .hex0 => (Str.hexVal c).isSome
-     | .hex1 _ _ => (Str.hexVal c).isSome
+     | .backslash => !(c = 'N' || c = '\n')
+     | .hex _ need _ v => (match Str.hexVal c with | some d => 1 < need || validScalar (v * 16 + d) | none => false)
      | _ => true) && escOkGo (stepSt st c).2 cs
 
 def escOk (body : Str) : Bool := escOkGo .normal body
